@@ -215,6 +215,8 @@ def refresh_race(c):
                 if chan: chan.pop(0)
             elif t == 'register':
                 chan, reg = [], True
+            elif t == 'unregister':
+                chan, reg = [], False
             elif t == 'refresh' and reg:
                 for net, i in chan:
                     for n2, i2 in ids.items():
@@ -283,10 +285,12 @@ def label_coq(l):
     if t == 'touch': return '(RibTouch %s)' % cN(l[1])
     if t == 'free': return '(RibFree %s %s)' % (cN(l[1]), cbool(l[2]))
     if t == 'llgr': return '(LlgrFlip %s %s)' % (cN(l[1]), cbool(l[2]))
-    return {'deliver': 'Deliver', 'flush': 'Flush', 'register': 'Register', 'refresh': 'Refresh'}[t]
+    return {'deliver': 'Deliver', 'flush': 'Flush', 'register': 'Register', 'refresh': 'Refresh',
+            'unregister': 'Unregister'}[t]
 
 
-OPC = {'ins': 0, 'rem': 1, 'drop': 2, 'llgr': 3, 'deliver': 4, 'flush': 5, 'register': 6, 'refresh': 7}
+OPC = {'ins': 0, 'rem': 1, 'drop': 2, 'llgr': 3, 'deliver': 4, 'flush': 5, 'register': 6, 'refresh': 7,
+       'unregister': 8}
 
 # what the code under verification currently does (see Model/ExportTx.v): how PendingTx
 # names an entry, and whether dump/refresh truncate before the visibility filters
@@ -413,8 +417,12 @@ class Prop:
                 ops.append(('flush',))
             elif x < 0.97:
                 ops.append(('refresh',))
-            else:
+            elif x < 0.985:
                 ops.append(('register',))
+            else:
+                ops.append(('unregister',))
+                if rng.random() < 0.8:
+                    ops.append(('register',))
         # settle: deliver everything, flush
         pend = sum(1 for o in ops if o[0] in ('ins', 'rem')) + 4 * sum(1 for o in ops if o[0] in ('drop', 'llgr'))
         if rng.random() < 0.9:
@@ -482,7 +490,52 @@ class Prop:
         return [[o, self.project(o)] for o in m], ''
 
     def canon(self, case, obs):
-        return [o if o == [-1] else [x for x in o if x != [0, []]] for o in obs]
+        """silent RIB operations print nothing on the implementation side; destination ids are
+        renamed by first appearance within the run: the mirror does not depend on the numbering
+        (PendingTx is keyed by prefix), uniqueness of the ids is judged by the oracle"""
+        out = []
+        for o in obs:
+            if o == [-1]:
+                out.append(o)
+                continue
+            ren = {}
+            r = []
+            for x in o:
+                if x == [0, []]:
+                    continue
+                if x[0] == 0:
+                    i = x[1][0]
+                    x = [0, [ren.setdefault(i, len(ren))]] + x[2:]
+                r.append(x)
+            out.append(r)
+        return out
+
+    @staticmethod
+    def id_clash(c, o):
+        """dest ids of the implementation's changes: a live destination keeps its id, two live
+        destinations never share one (liveness from the reference RIB: silent creations and
+        removals emit no change)"""
+        recs = [x for x in o if x[0] == 0 and x != [0, []]]
+        k = 0
+        ids = {}            # live net -> id (known once a change of it was seen)
+        for ls in translate(c):
+            for l in ls:
+                sets = [('set',) + tuple(x) for x in l[2]] if l[0] == 'llgrmark' else [l]
+                for m in sets:
+                    if m[0] == 'set' or (m[0] == 'free' and m[2]):
+                        if k >= len(recs):
+                            return None
+                        i, net = recs[k][1][0], recs[k][2]
+                        k += 1
+                        if net in ids and ids[net] != i:
+                            return 'destination %d changed its dest_id while it was live' % net
+                        for n2, i2 in ids.items():
+                            if n2 != net and i2 == i:
+                                return 'two live destinations (%d, %d) share dest_id %d' % (n2, net, i)
+                        ids[net] = i
+                    if m[0] == 'free':
+                        ids.pop(m[1], None)
+        return None
 
     # ---- Spec oracle on the implementation's observations
     def oracle(self, c, obs):
@@ -490,6 +543,10 @@ class Prop:
         if why:
             return 'change stream (as predicted by the reference RIB and matched by the table): ' + why
         for lvl, o in zip(('export-level', 'session-level'), obs):
+            if o != [-1]:
+                why = self.id_clash(c, o)
+                if why:
+                    return lvl + ' run, ' + why
             why = self.oracle1(c, o, lvl == 'session-level')
             if why:
                 return lvl + ' run, ' + why
@@ -502,6 +559,8 @@ class Prop:
         for k, o in enumerate(obs):
             if o[0] == 4:
                 established = True
+            if o[0] == 7:
+                established = False
             if not established:
                 continue            # the property speaks about established neighbours
             if o[0] == 3:
